@@ -1,22 +1,32 @@
 (** Case runner for the verification skeleton (C20). *)
 From Coq Require Import ZArith List String Bool.
-From ACV Require Import Model.Res Model.Skeleton Model.SkelCreate Exec.Show.
+From ACV Require Import Model.Res Model.Skeleton Model.SkelCreate Model.SkelBlind Exec.Show.
 Import ListNotations.
 Open Scope string_scope.
 
 Inductive case : Type :=
 | KVer (su : suite) (ss : list sstmt) (P : spres)
-| KCre (creds : list (nat * cred)) (ss : list cstmt).
+| KCre (creds : list (nat * cred)) (ss : list cstmt)
+| KReqNew (sc : bschema) (ngens : nat) (labels : list nat)
+| KBSign (ps : bool) (sc : bschema) (nkey nresp : nat) (req_labels : list nat) (known : list (nat * bool)) (has_rev : bool)
+| KUnblind (sc : bschema) (bundle_labels blind_labels : list nat) (rev_label : nat).
 
 Definition St := Build_sstmt.
 Definition Pr := Build_sproof.
 Definition Ps := Build_spres.
 Definition Cs := Build_cstmt.
+Definition Bs := Build_bschema.
+Definition valid_of (known : list (nat * bool)) (l : nat) : bool := existsb (fun p => Nat.eqb (fst p) l && snd p) known.
 
 Definition run_case (k : case) : string :=
   match k with
   | KVer su ss P => show_res (fun _ => "") (verify su all_pass ss P)
   | KCre creds ss => show_res (fun _ => "") (create creds ss all_pass_c)
+  | KReqNew sc n labels => show_res (fun _ => "") (request_new sc n labels true)
+  | KBSign ps sc nkey nresp rl known hr =>
+      show_res (fun _ => "") (blind_sign_credential ps sc nkey nresp rl (map fst known) (valid_of known) hr true true true)
+      ++ " " ++ show_res (fun _ => "") (request_verify ps sc nkey nresp rl true)
+  | KUnblind sc bl blind rl => show_res (fun _ => "") (to_unblinded sc bl blind rl)
   end.
 
 Definition run_all (l : list case) : string := unlines (map run_case l).
